@@ -2,7 +2,7 @@
    correspondence check (vm_compute in the kernel, extracted OCaml) call only this. *)
 From Coq Require Import ZArith List Bool.
 Import ListNotations.
-From Eudoxia Require Import Model.Codec Model.RunLife Model.RunExec Model.RunTime Model.RunSim Model.RunCsv Model.RunTools.
+From Eudoxia Require Import Model.Codec Model.RunLife Model.RunExec Model.RunTime Model.RunSim Model.RunCsv Model.RunTools Model.RunGen.
 
 Definition run (kind : Z) (l : list Z) : list Z :=
   match kind with
@@ -12,6 +12,7 @@ Definition run (kind : Z) (l : list Z) : list Z :=
   | 4 => run_time l
   | 5 => run_sim l
   | 14 => run_csv_read l
+  | 15 => run_gen l
   | 24 => run_csv_write l
   | 20 => run_snap l
   | 21 => run_jitter l
